@@ -56,9 +56,17 @@ def evaluate(cdir, sid, round_name):
     try:
         rc, out = sh(["git", "-C", wt, "apply", os.path.join(cdir, "patch.diff")])
         if rc != 0:
-            rec["status"] = "patch-does-not-apply"
-            rec["detail"] = out[-300:]
-            return rec
+            # the tree has moved on since the change was written (later repairs): merge it three-way against the blobs
+            # the patch names; the confirmation below (suite unchanged, demonstration fails with / passes without the
+            # change) decides whether the merged change is still the change
+            sh(["git", "-C", wt, "checkout", "--", "."])
+            rc3, out3 = sh(["git", "-C", wt, "apply", "--3way", os.path.join(cdir, "patch.diff")])
+            rcu, outu = sh(["git", "-C", wt, "diff", "--name-only", "--diff-filter=U"])
+            if rc3 != 0 or outu.strip():
+                rec["status"] = "patch-does-not-apply"
+                rec["detail"] = out[-300:]
+                return rec
+            rec["applied"] = "3way"
         rc, out = sh([PY, "-m", "pytest", "-q", "-p", "no:cacheprovider", "--timeout=900",
                       "--continue-on-collection-errors"], cwd=wt)
         rec["tests"] = out.strip().splitlines()[-1] if out.strip() else ""
